@@ -846,6 +846,24 @@ def impl_route1(case, scratch, idx):
     return enc_obs(obs), fails
 
 
+def representable(x):
+    """values of keys without a converter that an HDF5 attribute can hold
+    without coercion: text, numbers, homogeneous numeric sequences/arrays
+    (a list mixing text and numbers is turned into a string array by numpy;
+    that is the caller's business)"""
+    import numpy as np
+
+    def plain(y):
+        if isinstance(y, np.ndarray):
+            return y.tolist() if y.dtype.kind in "biuf" else None
+        if isinstance(y, np.generic):
+            return y.item()
+        if isinstance(y, (list, tuple)):
+            return [plain(z) for z in y]
+        return y
+    return e_nf(plain(x)) != [99]
+
+
 def impl_route2(case, val, scratch, idx):
     """RTDCWriter.store_metadata, then RTDC_HDF5.parse_config"""
     from dclab import RTDCWriter
@@ -875,7 +893,7 @@ def impl_route2(case, val, scratch, idx):
     conv_key = has_converter(sec, lk)
     if ref[0] == "ok" and ref[1] is not ABSENT and not ref[2] and \
             (sec == "user" or key == lk) and \
-            (wrote or conv_key):
+            (conv_key or (wrote and representable(ref[1]))):
         # (store_metadata takes the keys as they are: a key that is not
         # lower-case is refused with a ValueError; values of keys without a
         # converter that HDF5 cannot represent are the caller's business)
